@@ -2577,6 +2577,9 @@ hsStateDetermined:
                     /* Don't have all the fragments yet */
                     return MATRIXSSL_SUCCESS;
                 }
+                /* Parse the reassembled message, then return to what
+                    follows this fragment in the record */
+                saved_c = c + fragLen;
                 c = ssl->fragMessage;
                 end = ssl->fragMessage + hsLen;
             }
